@@ -39,6 +39,16 @@ func (*Sorter).less
   ensures lexicographic-with-direction: result <==> exists(k, 0, len(s.keys), forall(j, 0, k, keyCmp(s, a, b, j) == 0) && ((s.keys[k].Direction == "DESC" && keyCmp(s, a, b, k) > 0) || (s.keys[k].Direction != "DESC" && keyCmp(s, a, b, k) < 0)))
   loop 1 invariant forall(j, 0, $i, keyCmp(s, a, b, j) == 0)
 
+immutable DataProcessor: stream
+
+// the consumer loop: a buffer swap (expansion) or Stop replaces s.dataChan, so the channel must be read again, under the
+// read lock, in every iteration before a row is taken from it
+func (*DataProcessor).Process
+  props C05 C19
+  modifies *
+  count reads := RLock
+  before processItem the-channel-is-read-again-under-the-lock-before-every-receive: $reads > atloop(1, $reads)
+
 func (*DataProcessor).applyHavingWithCondition
   props C07
   modifies *
